@@ -818,60 +818,88 @@ pub proof fn lemma_keys_exactly_len<K, V>(m: Map<K, V>, ks: Seq<K>)
     assert(ks.to_set() =~= m.dom());
 }
 
-pub proof fn lemma_orders_ok_intro(v: PermV, os: Seq<u32>, ot: Map<u32, Seq<u32>>)
-    requires
-        keys_exactly(v.streams, os),
-        forall|j: int| 0 <= j < os.len() ==> ot.contains_key(#[trigger] os[j]) && keys_exactly(v.streams[os[j]].topics, ot[os[j]]),
-    ensures orders_ok(v, os, ot),
-{
-    assert forall|k: u32| #[trigger] v.streams.contains_key(k) implies ot.contains_key(k) && keys_exactly(v.streams[k].topics, ot[k]) by {
-        let j = choose|j: int| 0 <= j < os.len() && os[j] == k;
-        assert(ot.contains_key(os[j]));
-    }
-}
 pub proof fn lemma_perm_rel_intro(p: Permissions, bytes: Seq<u8>)
     requires orders_ok(perm_view(p), perm_order_s(p), perm_order_t(p)), bytes == enc_permissions(p),
     ensures enc_permissions_rel(p, bytes),
 {}
 
-// what the encoder BUILDS (appends, in the order of the statements) is what the layout SAYS: pure sequence algebra, one lemma per
-// loop step, so that the function body itself needs no extensionality reasoning
+// what the encoder BUILDS (appends, in the order of the statements) is what the layout SAYS: pure sequence algebra. The loop
+// invariants speak about the prefixes below as OPAQUE terms (hidden in the function body) and every loop step is one lemma here, so
+// that the function body needs no reasoning about concatenations at all.
+pub open spec fn sprefix(g0: Seq<u8>, m: Map<u32, StreamV>, os: Seq<u32>, ot: Map<u32, Seq<u32>>, i: int) -> Seq<u8> { g0 + enc_streams_upto(m, os, ot, i) }
+pub open spec fn tprefix(pre: Seq<u8>, m: Map<u32, TopicPermissions>, ord: Seq<u32>, j: int) -> Seq<u8> { pre + enc_topics_upto(m, ord, j) }
 pub proof fn lemma_global_built(g: GlobalPermissions)
     ensures
         Seq::<u8>::empty().push(flag(g.manage_servers)).push(flag(g.read_servers)).push(flag(g.manage_users)).push(flag(g.read_users))
             .push(flag(g.manage_streams)).push(flag(g.read_streams)).push(flag(g.manage_topics)).push(flag(g.read_topics))
             .push(flag(g.poll_messages)).push(flag(g.send_messages)) == enc_global(g),
+{}
+pub proof fn lemma_prefix_zero(g0: Seq<u8>, m: Map<u32, StreamV>, os: Seq<u32>, ot: Map<u32, Seq<u32>>, pre: Seq<u8>, tm: Map<u32, TopicPermissions>, ord: Seq<u32>)
+    ensures sprefix(g0, m, os, ot, 0) == g0, tprefix(pre, tm, ord, 0) == pre,
 {
+    assert(sprefix(g0, m, os, ot, 0) =~= g0);
+    assert(tprefix(pre, tm, ord, 0) =~= pre);
 }
-pub proof fn lemma_topic_step(pre: Seq<u8>, up: Seq<u8>, k: u32, t: TopicPermissions, more: bool)
+pub proof fn lemma_tprefix_step(pre: Seq<u8>, m: Map<u32, TopicPermissions>, ord: Seq<u32>, j: int)
+    requires 0 <= j < ord.len(),
     ensures
-        ((pre + up) + le32(k)).push(flag(t.manage_topic)).push(flag(t.read_topic)).push(flag(t.poll_messages)).push(flag(t.send_messages)).push(flag(more))
-            == pre + (up + enc_topic_entry(k, t, more)),
+        ({
+            let t = m[ord[j]];
+            (tprefix(pre, m, ord, j) + le32(ord[j])).push(flag(t.manage_topic)).push(flag(t.read_topic)).push(flag(t.poll_messages)).push(flag(t.send_messages))
+                .push(flag(j + 1 < ord.len())) == tprefix(pre, m, ord, j + 1)
+        }),
 {
-    assert(((pre + up) + le32(k)).push(flag(t.manage_topic)).push(flag(t.read_topic)).push(flag(t.poll_messages)).push(flag(t.send_messages)).push(flag(more))
-            =~= pre + (up + enc_topic_entry(k, t, more)));
+    let t = m[ord[j]];
+    assert((tprefix(pre, m, ord, j) + le32(ord[j])).push(flag(t.manage_topic)).push(flag(t.read_topic)).push(flag(t.poll_messages)).push(flag(t.send_messages))
+                .push(flag(j + 1 < ord.len())) =~= pre + (enc_topics_upto(m, ord, j) + enc_topic_entry(ord[j], t, j + 1 < ord.len())));
 }
-pub proof fn lemma_stream_step_topics(g0: Seq<u8>, up: Seq<u8>, k: u32, sv: StreamV, ord_t: Seq<u32>, tf: Seq<u8>, more: bool)
-    requires enc_topics(sv.topics, ord_t) == seq![1u8] + tf,
+pub proof fn lemma_sprefix_step_topics(g0: Seq<u8>, m: Map<u32, StreamV>, os: Seq<u32>, ot: Map<u32, Seq<u32>>, i: int)
+    requires 0 <= i < os.len(), ot[os[i]].len() > 0,
     ensures
-        (((g0 + up) + le32(k)).push(flag(sv.manage_stream)).push(flag(sv.read_stream)).push(flag(sv.manage_topics)).push(flag(sv.read_topics))
-            .push(flag(sv.poll_messages)).push(flag(sv.send_messages)).push(1u8) + tf).push(flag(more))
-            == g0 + (up + enc_stream_entry(k, sv, ord_t, more)),
+        ({
+            let sv = m[os[i]];
+            let ord = ot[os[i]];
+            let pre_t = (sprefix(g0, m, os, ot, i) + le32(os[i])).push(flag(sv.manage_stream)).push(flag(sv.read_stream)).push(flag(sv.manage_topics))
+                .push(flag(sv.read_topics)).push(flag(sv.poll_messages)).push(flag(sv.send_messages)).push(1u8);
+            tprefix(pre_t, sv.topics, ord, ord.len() as int).push(flag(i + 1 < os.len())) == sprefix(g0, m, os, ot, i + 1)
+        }),
 {
-    assert((((g0 + up) + le32(k)).push(flag(sv.manage_stream)).push(flag(sv.read_stream)).push(flag(sv.manage_topics)).push(flag(sv.read_topics))
-            .push(flag(sv.poll_messages)).push(flag(sv.send_messages)).push(1u8) + tf).push(flag(more))
-            =~= g0 + (up + (enc_stream_head(k, sv) + (seq![1u8] + tf)).push(flag(more))));
+    let sv = m[os[i]];
+    let ord = ot[os[i]];
+    let pre_t = (sprefix(g0, m, os, ot, i) + le32(os[i])).push(flag(sv.manage_stream)).push(flag(sv.read_stream)).push(flag(sv.manage_topics))
+                .push(flag(sv.read_topics)).push(flag(sv.poll_messages)).push(flag(sv.send_messages)).push(1u8);
+    lemma_topics_upto_from(sv.topics, ord, ord.len() as int);
+    let tf = enc_topics_from(sv.topics, ord, 0);
+    assert(tprefix(pre_t, sv.topics, ord, ord.len() as int).push(flag(i + 1 < os.len()))
+        =~= g0 + (enc_streams_upto(m, os, ot, i) + (enc_stream_head(os[i], sv) + (seq![1u8] + tf)).push(flag(i + 1 < os.len()))));
 }
-pub proof fn lemma_stream_step_none(g0: Seq<u8>, up: Seq<u8>, k: u32, sv: StreamV, ord_t: Seq<u32>, more: bool)
-    requires enc_topics(sv.topics, ord_t) == seq![0u8],
+pub proof fn lemma_sprefix_step_none(g0: Seq<u8>, m: Map<u32, StreamV>, os: Seq<u32>, ot: Map<u32, Seq<u32>>, i: int)
+    requires 0 <= i < os.len(), ot[os[i]].len() == 0,
     ensures
-        ((g0 + up) + le32(k)).push(flag(sv.manage_stream)).push(flag(sv.read_stream)).push(flag(sv.manage_topics)).push(flag(sv.read_topics))
-            .push(flag(sv.poll_messages)).push(flag(sv.send_messages)).push(0u8).push(flag(more))
-            == g0 + (up + enc_stream_entry(k, sv, ord_t, more)),
+        ({
+            let sv = m[os[i]];
+            (sprefix(g0, m, os, ot, i) + le32(os[i])).push(flag(sv.manage_stream)).push(flag(sv.read_stream)).push(flag(sv.manage_topics))
+                .push(flag(sv.read_topics)).push(flag(sv.poll_messages)).push(flag(sv.send_messages)).push(0u8).push(flag(i + 1 < os.len()))
+                == sprefix(g0, m, os, ot, i + 1)
+        }),
 {
-    assert(((g0 + up) + le32(k)).push(flag(sv.manage_stream)).push(flag(sv.read_stream)).push(flag(sv.manage_topics)).push(flag(sv.read_topics))
-            .push(flag(sv.poll_messages)).push(flag(sv.send_messages)).push(0u8).push(flag(more))
-            =~= g0 + (up + (enc_stream_head(k, sv) + seq![0u8]).push(flag(more))));
+    let sv = m[os[i]];
+    assert((sprefix(g0, m, os, ot, i) + le32(os[i])).push(flag(sv.manage_stream)).push(flag(sv.read_stream)).push(flag(sv.manage_topics))
+                .push(flag(sv.read_topics)).push(flag(sv.poll_messages)).push(flag(sv.send_messages)).push(0u8).push(flag(i + 1 < os.len()))
+        =~= g0 + (enc_streams_upto(m, os, ot, i) + (enc_stream_head(os[i], sv) + seq![0u8]).push(flag(i + 1 < os.len()))));
+}
+// the finished buffer is the encoding
+pub proof fn lemma_sprefix_final(g: Seq<u8>, m: Map<u32, StreamV>, os: Seq<u32>, ot: Map<u32, Seq<u32>>)
+    ensures
+        os.len() > 0 ==> sprefix(g.push(1u8), m, os, ot, os.len() as int) == g + enc_streams(m, os, ot),
+        os.len() == 0 ==> g.push(0u8) == g + enc_streams(m, os, ot),
+{
+    if os.len() > 0 {
+        lemma_streams_upto_from(m, os, ot, os.len() as int);
+        assert(sprefix(g.push(1u8), m, os, ot, os.len() as int) =~= g + (seq![1u8] + enc_streams_from(m, os, ot, 0)));
+    } else {
+        assert(g.push(0u8) =~= g + seq![0u8]);
+    }
 }
 pub proof fn lemma_perm_built(g: Seq<u8>, f: Seq<u8>)
     ensures g.push(1u8) + f == g + (seq![1u8] + f), g.push(0u8) == g + seq![0u8], g + Seq::<u8>::empty() == g,
@@ -1071,7 +1099,7 @@ pub proof fn lemma_stream_same_eq(s1: StreamV, o1: Seq<u32>, s0: StreamV, o0: Se
     }
     assert(s1.topics =~= s0.topics);
 }
-// label: C13.inj.Permissions
+// (labelled wrapper: lemmas.rs c13_inj_permissions)
 pub proof fn lemma_permv_injective(v1: PermV, os1: Seq<u32>, ot1: Map<u32, Seq<u32>>, v0: PermV, os0: Seq<u32>, ot0: Map<u32, Seq<u32>>)
     requires orders_ok(v1, os1, ot1), orders_ok(v0, os0, ot0), enc_permv(v1, os1, ot1) == enc_permv(v0, os0, ot0),
     ensures v1 =~~= v0,
